@@ -277,6 +277,232 @@ fn gossip_roundtrips(ds: &[ReplicationDelta], rng: &mut Rng, out: &mut Out) {
     }
 }
 
+
+// ---------------------------------------------------------------------------------------------
+// the concrete bincode model (lean/RedisVerif/Model/Bincode.lean) tied to the real (de)serialiser
+// ---------------------------------------------------------------------------------------------
+
+/// the code's own deserialisation path of a delta payload (`WalEntry::to_delta`)
+fn real_de_delta(b: &[u8]) -> String {
+    let e = WalEntry { data: b.to_vec(), timestamp: 0, checksum: 0 };
+    match catch_unwind(AssertUnwindSafe(|| e.to_delta())) {
+        Err(_) => "crash".into(),
+        Ok(Err(_)) => "err".into(),
+        Ok(Ok(d)) => format!("ok {}", show_delta(&d)),
+    }
+}
+
+/// state text in the order of the model's key codes (length, then bytes)
+fn show_state_canon(st: &HashMap<String, ReplicatedValue>) -> String {
+    let mut ks: Vec<&String> = st.keys().collect();
+    ks.sort_by(|a, b| crate::enc::key_cmp(a, b));
+    ks.iter().map(|k| format!("{}={}", hex(k.as_bytes()), show_real(&st[*k]))).collect::<Vec<_>>().join(";")
+}
+
+fn real_de_state(b: &[u8]) -> String {
+    match catch_unwind(AssertUnwindSafe(|| bincode::deserialize::<redis_sim::streaming::checkpoint::CheckpointData>(b))) {
+        Err(_) => "crash".into(),
+        Ok(Err(_)) => "err".into(),
+        Ok(Ok(d)) => format!("ok {} {}", d.state.len(), show_state_canon(&d.state)),
+    }
+}
+
+/// damaged variants of a payload: prefixes, trailing bytes, byte substitutions, boundary values
+/// written over every (dense) or sampled position as u64 / u32 fields
+fn payload_mutations(b: &[u8], rng: &mut Rng, dense: bool) -> Vec<(Vec<u8>, &'static str)> {
+    let n = b.len();
+    let mut v: Vec<(Vec<u8>, &'static str)> = Vec::new();
+    for l in 0..n {
+        if (dense && n <= 400) || l < 4 || l + 4 >= n || rng.chance(1, (n / 12).max(1) as u64) {
+            v.push((b[..l].to_vec(), "prefix"));
+        }
+    }
+    for t in [vec![0u8], vec![0xFF; 9], vec![1, 0, 0, 0, 0, 0, 0, 0, 65]] {
+        let mut x = b.to_vec();
+        x.extend_from_slice(&t);
+        v.push((x, "trailing-bytes"));
+    }
+    let step = if dense { 1 } else { (n as u64 / 10).max(6) };
+    for p in 0..n {
+        if !(dense || rng.chance(1, step)) {
+            continue;
+        }
+        for val in [b[p] ^ (1 << rng.below(8)), 0, 1, 2, 0xFF] {
+            if val != b[p] && (dense || rng.chance(1, 2)) {
+                let mut x = b.to_vec();
+                x[p] = val;
+                v.push((x, "byte"));
+            }
+        }
+        if dense || rng.chance(1, 3) {
+            let rem = (n - p) as u64;
+            for f in [0u64, 1, 2, rem.saturating_sub(8), rem.saturating_sub(7), rem.saturating_sub(9), rem, 1 << 32, 1 << 63, u64::MAX] {
+                if dense || rng.chance(1, 3) {
+                    v.push((overwrite(b, p, &f.to_le_bytes()), "u64-field"));
+                }
+            }
+            for f in [0u32, 1, 5, 6, 7, u32::MAX] {
+                if rng.chance(1, 3) {
+                    v.push((overwrite(b, p, &f.to_le_bytes()), "u32-field"));
+                }
+            }
+        }
+    }
+    v
+}
+
+/// every generated delta: its real bincode bytes decoded by the model (text of every field compared
+/// with the real decoder's and with the original), every / sampled damaged variant decoded by both
+fn bincode_tie(ds: &[ReplicationDelta], rng: &mut Rng, out: &mut Out, dense_first: bool) {
+    for (i, d) in ds.iter().enumerate() {
+        let b = bincode::serialize(d).unwrap();
+        let r = real_de_delta(&b);
+        out.op(format!("BD {}", hex(&b)), r.clone());
+        out.count("bincode:delta:pristine");
+        if r != format!("ok {}", show_delta(d)) {
+            out.violation("C14:roundtrip:bincode-delta", "a delta did not survive bincode serialize/deserialize", json!({"delta": show_delta(d), "decoded": r}));
+        }
+        // damaged variants: densely for the first delta of every 16th batch (if small), lightly sampled for
+        // one more delta per batch
+        let dense = dense_first && i == 0 && b.len() <= 160;
+        if b.len() > 1500 || !(dense || i == 0) {
+            continue;
+        }
+        for (x, what) in payload_mutations(&b, rng, dense) {
+            let r = real_de_delta(&x);
+            out.count(&format!("bincode:delta:{}:{}", what, if r == "err" { "rejected" } else if r == "crash" { "crash" } else { "decoded" }));
+            if r == "crash" {
+                out.violation(&format!("C14:bincode:panic:{}", what), "deserialising a damaged delta payload panicked", json!({"payload": hex(&x), "pristine": hex(&b)}));
+            }
+            if what == "prefix" && r != "err" {
+                out.violation("C14:bincode:truncated-payload-decoded", "a truncated delta payload was decoded", json!({"payload": hex(&x), "pristine": hex(&b), "decoded": r}));
+            }
+            if what == "trailing-bytes" && r != format!("ok {}", show_delta(d)) {
+                out.violation("C14:bincode:trailing-bytes-change-the-value", "bytes after a delta payload changed what it decodes to", json!({"payload": hex(&x), "decoded": r}));
+            }
+            out.op(format!("BD {}", hex(&x)), r);
+        }
+    }
+}
+
+/// a tiny wire builder for hand-made payloads (shapes no real serialiser produces: duplicate map
+/// keys / set elements, invalid UTF-8 keys, out-of-range tags)
+struct Wb(Vec<u8>);
+impl Wb {
+    fn u64(mut self, v: u64) -> Self { self.0.extend_from_slice(&v.to_le_bytes()); self }
+    fn u32(mut self, v: u32) -> Self { self.0.extend_from_slice(&v.to_le_bytes()); self }
+    fn u8(mut self, v: u8) -> Self { self.0.push(v); self }
+    fn bytes(mut self, b: &[u8]) -> Self { self.0.extend_from_slice(&(b.len() as u64).to_le_bytes()); self.0.extend_from_slice(b); self }
+    fn raw(mut self, b: &[u8]) -> Self { self.0.extend_from_slice(b); self }
+}
+
+/// `key | crdt-bytes | vc none | expiry none | stamp (3,1) | rf none | source 1`
+fn raw_delta(key: &[u8], crdt: &[u8]) -> Vec<u8> {
+    Wb(vec![]).bytes(key).raw(crdt).u8(0).u8(0).u64(3).u64(1).u8(0).u64(1).0
+}
+
+fn crafted_payloads() -> Vec<(Vec<u8>, &'static str)> {
+    let lww = |v: &[u8], t: u64, r: u64| Wb(vec![]).u8(1).bytes(v).u64(t).u64(r).u8(0).0;
+    let mut v: Vec<(Vec<u8>, &'static str)> = Vec::new();
+    // duplicate keys in HashMap<ReplicaId,u64>: the later pair wins
+    v.push((raw_delta(b"g", &Wb(vec![]).u32(1).u64(3).u64(7).u64(10).u64(8).u64(20).u64(7).u64(30).0), "dup-key:gcounter"));
+    v.push((raw_delta(b"p", &Wb(vec![]).u32(2).u64(2).u64(1).u64(1).u64(1).u64(2).u64(2).u64(5).u64(9).u64(5).u64(0).0), "dup-key:pncounter"));
+    // duplicate elements in HashSet<String>
+    v.push((raw_delta(b"s", &Wb(vec![]).u32(3).u64(3).bytes(b"a").bytes(b"bb").bytes(b"a").0), "dup-elem:gset"));
+    // ORSet: duplicate element key (later tag set wins), duplicate tags, empty tag set
+    v.push((raw_delta(b"o", &Wb(vec![]).u32(4).u64(3).bytes(b"x").u64(2).u64(1).u64(1).u64(1).u64(1).bytes(b"y").u64(0).bytes(b"x").u64(1).u64(2).u64(9).u64(1).u64(1).u64(4).0), "dup-key:orset"));
+    // Hash: duplicate field
+    v.push((raw_delta(b"h", &Wb(vec![]).u32(5).u64(2).bytes(b"f").raw(&lww(b"1", 1, 1)).bytes(b"f").raw(&lww(b"2", 2, 1)).0), "dup-key:hash"));
+    // variant index / option tag / bool out of range
+    for t in [6u32, 7, 255, 256, u32::MAX] {
+        v.push((raw_delta(b"k", &Wb(vec![]).u32(t).raw(&lww(b"v", 1, 1)).0), "variant-index"));
+    }
+    for tag in [2u8, 3, 0x80, 0xFF] {
+        v.push((raw_delta(b"k", &Wb(vec![]).u32(0).u8(tag).bytes(b"v").u64(1).u64(1).u8(0).0), "option-tag"));
+        v.push((raw_delta(b"k", &Wb(vec![]).u32(0).u8(1).bytes(b"v").u64(1).u64(1).u8(tag).0), "bool-byte"));
+    }
+    // keys: valid and invalid UTF-8
+    for k in utf8_samples() {
+        v.push((raw_delta(&k, &Wb(vec![]).u32(0).raw(&lww(b"v", 1, 1)).0), "key-bytes"));
+    }
+    // element / field names inside the containers
+    for k in [&[0xFFu8][..], &[0xC0, 0x80], &[0xED, 0xA0, 0x80], &[0xF4, 0x90, 0x80, 0x80], "é".as_bytes(), &[]] {
+        v.push((raw_delta(b"s", &Wb(vec![]).u32(3).u64(1).bytes(k).0), "gset-element-bytes"));
+        v.push((raw_delta(b"h", &Wb(vec![]).u32(5).u64(1).bytes(k).raw(&lww(&[0xFF, 0x00], 1, 1)).0), "hash-field-bytes"));
+    }
+    // counts that promise more than is there
+    for n in [1u64, 2, 1 << 20, 1 << 32, 1 << 63, u64::MAX] {
+        v.push((raw_delta(b"g", &Wb(vec![]).u32(1).u64(n).0), "count-beyond-input"));
+        v.push((raw_delta(b"s", &Wb(vec![]).u32(3).u64(n).bytes(b"a").0), "count-beyond-input"));
+        v.push((Wb(vec![]).u64(n).raw(b"abc").0, "key-length-beyond-input"));
+    }
+    v
+}
+
+/// byte strings around every boundary of the UTF-8 well-formedness table
+fn utf8_samples() -> Vec<Vec<u8>> {
+    let mut v: Vec<Vec<u8>> = vec![vec![], b"plain".to_vec(), "é€𐍈\u{10FFFF}\u{0}".as_bytes().to_vec()];
+    for b0 in 0..=255u8 {
+        v.push(vec![b0]);
+    }
+    for b0 in [0x7Fu8, 0x80, 0xBF, 0xC0, 0xC1, 0xC2, 0xDF, 0xE0, 0xEF, 0xF0, 0xF4, 0xF5] {
+        for b1 in [0x00u8, 0x7F, 0x80, 0x8F, 0x90, 0x9F, 0xA0, 0xBF, 0xC0, 0xFF] {
+            v.push(vec![b0, b1]);
+        }
+    }
+    for b0 in [0xE0u8, 0xE1, 0xEC, 0xED, 0xEE, 0xEF] {
+        for b1 in [0x7Fu8, 0x80, 0x9F, 0xA0, 0xBF, 0xC0] {
+            for b2 in [0x7Fu8, 0x80, 0xBF, 0xC0] {
+                v.push(vec![b0, b1, b2]);
+            }
+        }
+    }
+    for b0 in [0xF0u8, 0xF1, 0xF3, 0xF4, 0xF5, 0xF7, 0xF8, 0xFF] {
+        for b1 in [0x7Fu8, 0x80, 0x8F, 0x90, 0xBF, 0xC0] {
+            for b2 in [0x7Fu8, 0x80, 0xBF, 0xC0] {
+                for b3 in [0x7Fu8, 0x80, 0xBF, 0xC0] {
+                    v.push(vec![b0, b1, b2, b3]);
+                }
+            }
+        }
+    }
+    // sequences: valid char followed by a torn one, etc.
+    v.push(vec![0x61, 0xC3]);
+    v.push(vec![0xC3, 0xA9, 0xE2, 0x82]);
+    v.push(vec![0xF0, 0x90, 0x8D, 0x88, 0x61, 0xF0, 0x90, 0x8D]);
+    v
+}
+
+fn bincode_fixed(out: &mut Out) {
+    for k in utf8_samples() {
+        out.op(format!("U8 {}", hex(&k)), if std::str::from_utf8(&k).is_ok() { "1".into() } else { "0".into() });
+        out.count("bincode:utf8-sample");
+    }
+    for (b, what) in crafted_payloads() {
+        let r = real_de_delta(&b);
+        out.count(&format!("bincode:crafted:{}:{}", what, if r == "err" { "rejected" } else if r == "crash" { "crash" } else { "decoded" }));
+        if r == "crash" {
+            out.violation(&format!("C14:bincode:panic:{}", what), "deserialising a hand-made delta payload panicked", json!({"payload": hex(&b)}));
+        }
+        out.op(format!("BD {}", hex(&b)), r);
+    }
+    // checkpoint payloads: duplicate key (later wins), invalid key, count beyond input
+    let rvb = |v: &[u8]| Wb(vec![]).u32(0).u8(1).bytes(v).u64(1).u64(1).u8(0).u8(0).u8(0).u64(1).u64(1).u8(0).0;
+    let states: Vec<Vec<u8>> = vec![
+        Wb(vec![]).u64(0).0,
+        Wb(vec![]).u64(2).bytes(b"k").raw(&rvb(b"1")).bytes(b"k").raw(&rvb(b"2")).0,
+        Wb(vec![]).u64(2).bytes(b"kk").raw(&rvb(b"1")).bytes(b"z").raw(&rvb(b"2")).0,
+        Wb(vec![]).u64(1).bytes(&[0xFF]).raw(&rvb(b"1")).0,
+        Wb(vec![]).u64(3).bytes(b"k").raw(&rvb(b"1")).0,
+        Wb(vec![]).u64(u64::MAX).0,
+        Wb(vec![]).u64(1).bytes(b"k").raw(&rvb(b"1")).raw(b"trailing").0,
+    ];
+    for b in states {
+        out.op(format!("BS {}", hex(&b)), real_de_state(&b));
+        out.count("bincode:crafted:state");
+    }
+}
+
 struct Muts {
     cuts: Vec<usize>,
     subs: Vec<(usize, u8)>,
@@ -699,6 +925,7 @@ pub fn run(a: &Args) {
         format!("V {} {}", crate::cfg::CODE_WAL_FORMAT, crate::cfg::CODE_SEGMENT_STRICT_COUNT as u8),
         format!("format {} strict {}", crate::cfg::CODE_WAL_FORMAT, crate::cfg::CODE_SEGMENT_STRICT_COUNT as u8),
     );
+    bincode_fixed(&mut out);
     // fixed corpus first (both were defects, repaired by `fix:` commits: they must PASS now)
     {
         let w = embedded_footer_witness();
@@ -719,6 +946,7 @@ pub fn run(a: &Args) {
         let hash = ReplicationDelta::new("h".into(), MRv { crdt: MCrdt::H(h), vc: None, exp: None, t: 3, r: 1, rf: None }.to_real(), ReplicaId::new(1));
         let ds = vec![mk("ff", vec![0xFF]), mk("bitmap", vec![0x80, 0x01, 0xFE, 0x00, 0xFF]), hash];
         roundtrips(&ds, &mut rng, &mut out);
+        bincode_tie(&ds, &mut rng, &mut out, true);
         segment_case(&ds, &mut rng, &mut out, false, "non-utf8-payloads");
         checkpoint_case(&ds, &mut rng, &mut out, false);
     }
@@ -750,7 +978,7 @@ pub fn run(a: &Args) {
         let r = SegmentWriter::new(Compression::None).finish();
         out.op("S 0 ".into(), match r { Err(SegmentError::Empty) => "none".into(), Err(e) => format!("err {}", seg_err(&e)), Ok(b) => hex(&b) });
     }
-    for _ in 0..a.n {
+    for case_no in 0..a.n {
         let n = match rng.below(6) {
             0 => 1,
             1 => 2,
@@ -758,6 +986,7 @@ pub fn run(a: &Args) {
         } as usize;
         let ds = gen_deltas(&mut rng, &mut out, n);
         roundtrips(&ds, &mut rng, &mut out);
+        bincode_tie(&ds, &mut rng, &mut out, case_no % 16 == 0);
         segment_case(&ds, &mut rng, &mut out, thorough, "generated");
         checkpoint_case(&ds, &mut rng, &mut out, thorough);
         if rng.chance(1, 3) {
